@@ -121,6 +121,10 @@ def _build(layout, bnds, symbolic):
         else:
             key = {0: KEY_V, 1: KEY_W, 2: "pipeline.photon_collection.probe.arguments.c"}[k]
             values = ["_"] * n
+            if symbolic is True and bool(vx.boolean(f"declared_as_tuple_{k}")):
+                values = tuple(values)  # Sequence[Literal["_"]]: a tuple of placeholders is as legal as a list
+            elif isinstance(symbolic, dict) and symbolic.get(f"declared_as_tuple_{k}"):
+                values = tuple(values)
             b = [tuple(x) for x in bnds[k]] if per else tuple(bnds[k][0])
         variables.append(ParameterValues(key=key, values=values, boundaries=b, logarithmic=lg))
     prob = ModelFittingDataTree.__new__(ModelFittingDataTree)
@@ -413,7 +417,7 @@ def replay(oid, kwargs, model, data):
             lo, hi = pairs[c] if (kind == "V" and per) else pairs[0]
             owner.append((k, c, lg, lo, hi))
     dim = len(owner)
-    prob, variables = _build(layout, bnds, False)
+    prob, variables = _build(layout, bnds, {k: bool(v) for k, v in model.items() if str(k).startswith("declared_as_tuple_")})
     lbd, ubd = prob._set_bound()
     exp_lo = [np.log10(o[3]) if o[2] else o[3] for o in owner]
     exp_hi = [np.log10(o[4]) if o[2] else o[4] for o in owner]
